@@ -344,6 +344,13 @@ func Concretise(q Req, r *rand.Rand, model string) *Concrete {
 		top = append(top, kv{"top_k", 40})
 	case "meta":
 		top = append(top, kv{"metadata", map[string]any{"user_id": "u-" + randAlnum(r, 8)}})
+	case "think":
+		// extended thinking with a budget below max_tokens: max_tokens itself must travel unchanged
+		budget := c.MaxTok / 2
+		if budget < 1 {
+			budget = 1
+		}
+		top = append(top, kv{"thinking", map[string]any{"type": "enabled", "budget_tokens": budget}})
 	}
 	// messages
 	var msgs []any
